@@ -57,6 +57,11 @@ class Engine:
         Z = self.G(f).closure(b, extra_terms=[atom[1], atom[2]])
         return Z.le(atom[1], atom[2], atom[3])
 
+    def refuted(self, f, b, atom):
+        """the facts at the site entail the *negation* of the atom on a feasible path"""
+        Z = self.G(f).closure(b, extra_terms=[atom[1], atom[2]])
+        return not Z.contradiction and Z.le(atom[2], atom[1], -atom[3] - 1)
+
     def run(self):
         prog = self.prog
         # 1. local generation
@@ -77,6 +82,10 @@ class Engine:
                         continue
                     if f.short in self.exempt and tag in self.exempt[f.short]:
                         self.discharged.append((f.short, "%s: %s" % (tag, why), "named exception: " + self.exempt[f.short][tag]))
+                        continue
+                    if self.refuted(f, b, atom):
+                        self.failures.append((f.short, b, Req(atom, why, [(f.short, short_loc(f, b, i))], tag),
+                                              "is contradicted by the guard facts at the site itself"))
                         continue
                     if mir.entry_terms_only(atom[1]) and mir.entry_terms_only(atom[2]):
                         r = Req(atom, why, [(f.short, short_loc(f, b, i))], tag)
